@@ -439,6 +439,80 @@ Section ReassemblerLemmas.
     induction l as [|e r IH]; simpl; [lia|].
     destruct (mseq m =? e_seq e)%N; simpl; [lia|]. destruct (mseq m <? e_seq e)%N; simpl; lia.
   Qed.
+
+  Lemma put_ev_seqs_incl exp m l x : In x (map e_seq (put_ev exp m l)) -> x = mseq m \/ In x (map e_seq l).
+  Proof.
+    induction l as [|e r IH]; simpl.
+    - intros [H|[]]. left. symmetry. exact H.
+    - destruct (mseq m =? e_seq e)%N; simpl; [tauto|].
+      destruct (mseq m <? e_seq e)%N; simpl.
+      + intros [H|H]; [left; symmetry; exact H|right; exact H].
+      + intros [H|H]; [right; left; exact H|]. destruct (IH H); [left|right; right]; assumption.
+  Qed.
+
+  Lemma sorted_nodup (l : list N) : StronglySorted N.lt l -> NoDup l.
+  Proof.
+    induction l as [|x r IH]; intros H; [constructor|].
+    constructor; [apply sorted_lt_notin; exact H|apply IH; inversion H; assumption].
+  Qed.
+
+  Lemma put_sorted timeout now m l : StronglySorted N.lt (map e_seq l) ->
+    StronglySorted N.lt (map e_seq (put timeout now m l)).
+  Proof.
+    intros H. unfold AuditProc.put. destruct (is_eoe (mtype m)); [rewrite mark_done_seqs; exact H|apply put_ev_sorted; exact H].
+  Qed.
+
+  Lemma put_seqs_incl timeout now m l x : In x (map e_seq (put timeout now m l)) -> x = mseq m \/ In x (map e_seq l).
+  Proof.
+    unfold AuditProc.put. destruct (is_eoe (mtype m)); [rewrite mark_done_seqs; tauto|apply put_ev_seqs_incl].
+  Qed.
+
+  Lemma cleanup_snd_sorted maxsz now l : StronglySorted N.lt (map e_seq l) ->
+    StronglySorted N.lt (map e_seq (snd (cleanup maxsz now l))).
+  Proof.
+    intros H. rewrite <- (cleanup_app maxsz now l), map_app in H. apply sorted_app_r in H. exact H.
+  Qed.
+
+  Lemma cleanup_snd_incl maxsz now l x : In x (map e_seq (snd (cleanup maxsz now l))) -> In x (map e_seq l).
+  Proof.
+    intros H. rewrite <- (cleanup_app maxsz now l), map_app. apply in_or_app. right. exact H.
+  Qed.
+
+  (* a condition on the stream alone that implies size_ok: all sequence numbers of the pushed
+     records lie in a set of at most maxsz numbers (the buffer holds one event per number) *)
+  Lemma size_ok_distinct maxsz timeout (S : list N) : length S <= maxsz ->
+    forall ops st,
+    StronglySorted N.lt (map e_seq (r_evs st)) -> incl (map e_seq (r_evs st)) S ->
+    (forall m, In m (ops_msgs ops) -> In (mseq m) S) ->
+    size_ok msg mseq mtype maxsz timeout st ops.
+  Proof.
+    intros HS. induction ops as [|o r IH]; intros st Hs Hi Hm; simpl; [exact I|].
+    assert (Hm' : forall m, In m (ops_msgs r) -> In (mseq m) S).
+    { intros m H. apply Hm. unfold AuditProc.ops_msgs. simpl. apply in_or_app. right. exact H. }
+    assert (Hlen : forall l : list rev, StronglySorted N.lt (map e_seq l) -> incl (map e_seq l) S -> length l <= maxsz).
+    { intros l H1 H2. rewrite <- (map_length (@e_seq msg)). eapply Nat.le_trans; [|exact HS].
+      apply NoDup_incl_length; [apply sorted_nodup; exact H1|exact H2]. }
+    destruct o as [now m|now|]; simpl.
+    - assert (Hs1 : StronglySorted N.lt (map e_seq (put timeout now m (r_evs st)))) by (apply put_sorted; exact Hs).
+      assert (Hi1 : incl (map e_seq (put timeout now m (r_evs st))) S).
+      { intros x Hx. destruct (put_seqs_incl _ _ _ _ _ Hx) as [->|H]; [|apply Hi; exact H].
+        apply Hm. unfold AuditProc.ops_msgs. simpl. left. reflexivity. }
+      split; [apply Hlen; assumption|].
+      apply IH; simpl; [apply cleanup_snd_sorted; exact Hs1| |exact Hm'].
+      intros x Hx. apply Hi1. eapply cleanup_snd_incl. exact Hx.
+    - split; [apply Hlen; assumption|].
+      apply IH; simpl; [apply cleanup_snd_sorted; exact Hs| |exact Hm'].
+      intros x Hx. apply Hi. eapply cleanup_snd_incl. exact Hx.
+    - split; [apply Hlen; assumption|].
+      apply IH; simpl; [constructor|intros x []|exact Hm'].
+  Qed.
+
+  Theorem size_ok_few_seqs maxsz timeout ops (S : list N) :
+    length S <= maxsz -> (forall m, In m (ops_msgs ops) -> In (mseq m) S) ->
+    size_ok msg mseq mtype maxsz timeout (rinit msg) ops.
+  Proof.
+    intros HS Hm. apply (size_ok_distinct maxsz timeout S HS); simpl; [constructor|intros x []|exact Hm].
+  Qed.
 End ReassemblerLemmas.
 
 Section ProcessorLemmas.
@@ -789,6 +863,52 @@ Section ProcessorLemmas.
     - rewrite ?F2, ?Hm. simpl in Hm. rewrite ?Hm. unfold parse_ok in B2. rewrite B2, B3. reflexivity.
     - rewrite ?F2. exact B4.
     - rewrite ?F2. exact B5.
+  Qed.
+
+  (* Close is called only by the deferred shutdown *)
+  Lemma poll_ops s : p_ops (fst (poll s)) = p_ops s.
+  Proof. unfold AuditProc.poll. destruct (p_perr s); [reflexivity|]. destruct (cb_slot (p_cb s)); reflexivity. Qed.
+
+  Lemma step_noclose s i : ~ In RClose (p_ops s) -> ~ In RClose (p_ops (fst (step s i))).
+  Proof.
+    intros H. destruct i as [now l|now|lg|]; simpl.
+    - rewrite poll_ops. unfold AuditProc.on_line. destruct (is_empty l); [exact H|].
+      destruct (parse l) as [m|]; [|exact H].
+      destruct (reass_fields (consume line msg event cerr AS l s) (RPush now m)) as (_ & _ & F & _). rewrite F.
+      intros Hin. apply in_app_or in Hin. destruct Hin as [Hin|[Hin|[]]]; [exact (H Hin)|discriminate].
+    - rewrite poll_ops. destruct (reass_fields s (RMaintain now)) as (_ & _ & F & _). rewrite F.
+      intros Hin. apply in_app_or in Hin. destruct Hin as [Hin|[Hin|[]]]; [exact (H Hin)|discriminate].
+    - destruct (rlogin (cb_as _ _ _ _ (p_cb s)) lg) as [a [x|]]; exact H.
+    - exact H.
+  Qed.
+
+  Lemma read_from_noclose ins : forall s, ~ In RClose (p_ops s) -> ~ In RClose (p_ops (fst (read_from s ins))).
+  Proof.
+    induction ins as [|i r IH]; intros s H; [exact H|].
+    cbn [AuditProc.read_from]. pose proof (step_noclose s i H) as H'.
+    destruct (step s i) as [s' res]. cbn [fst] in H'.
+    destruct res; try exact H'. apply IH. exact H'.
+  Qed.
+
+  (* C15_grouping for Read: conservation's link to the reassembler + the grouping theorem *)
+  Theorem read_grouping a ins :
+    let o := read a ins in
+    let ops := p_ops (o_ret _ _ _ _ _ o) in
+    (forall x, In x ops -> op_time msg x <= timeout) ->
+    size_ok msg mseq mtype maxsz timeout (rinit msg) ops ->
+    term_last msg mseq mtype (ops_msgs ops) ->
+    exists seqs,
+      NoDup seqs /\
+      cb_groups (p_cb (o_fin _ _ _ _ _ o)) = map (fun s => recs_of msg mseq mtype s (ops_msgs ops)) seqs /\
+      (forall s, In s seqs <-> recs_of msg mseq mtype s (ops_msgs ops) <> []).
+  Proof.
+    cbv zeta. intros Ht Hsz Hterm.
+    destruct (conservation a ins) as (_ & G & _).
+    rewrite G. apply grouping; try assumption.
+    intros x Hx. split; [apply Ht; exact Hx|].
+    intros ->. revert Hx. unfold AuditProc.read.
+    pose proof (read_from_noclose ins (pinit a)) as N.
+    destruct (read_from (pinit a) ins) as [s res]. simpl in *. apply N. intros [].
   Qed.
 
   (* C15_errors *)
